@@ -5,7 +5,7 @@ import json
 import os
 import time
 
-from core import REPO, VERIF_DIR, Entropy, HarnessError, Streams, Violation, canon, repo_digest
+from core import OUT_DIR, REPO, VERIF_DIR, Entropy, HarnessError, Streams, Violation, canon, repo_digest
 from drivers import DRIVERS, Ctx
 from league import gen_config
 
@@ -13,6 +13,16 @@ FORMAT = 1
 
 
 def _execute(ctx, entropy_seed):
+    """One run, on a FRESH import of the library: module globals, class dictionaries, function
+    defaults and caches start pristine, so no run can see an earlier one (one seed = one
+    execution).  State a run leaves behind in the library is not a violation by itself (a
+    transparent cache keeps every property); it is recorded in ctx.module_state_left and what
+    it does to results is judged by the oracles."""
+    import core
+    from oracles import diff_state, module_state
+
+    core.load_openskill(fresh=True)
+    before = module_state()
     viol = None
     with Entropy(entropy_seed) as ent:
         drv = DRIVERS[ctx.prop][0](ctx)
@@ -21,16 +31,28 @@ def _execute(ctx, entropy_seed):
         except Violation as v:
             viol = v
     ctx.entropy_calls = ent.calls
+    d = diff_state(before, module_state())
+    ctx.module_state_left = d[:5]
+    if d:
+        ctx.count("runs_leaving_module_state")
     return viol
 
 
-def gen_run(prop, seed, run_idx, want=None):
+def gen_run(prop, seed, run_idx, want=None, force=None):
     streams = Streams(seed, run_idx)
     crng = streams.get("config")
     cfg = gen_config(crng, want)
     params = DRIVERS[prop][1](crng)
+    if force:
+        params.update(force)
     ctx = Ctx(prop, cfg, params, streams)
     viol = _execute(ctx, "%d:%d" % (seed, run_idx))
+    if viol is None and ctx.module_state_left and "pristine_refs" in params and not params["pristine_refs"]:
+        # the library kept state across calls: repeat the run with every reference execution
+        # in its own pristine import, so that the state cannot hide in both sides of a comparison
+        ctx2, viol2 = gen_run(prop, seed, run_idx, want, dict(force or {}, pristine_refs=True))
+        ctx2.count("reruns_with_pristine_references")
+        return ctx2, viol2
     return ctx, viol
 
 
@@ -263,7 +285,7 @@ def shrink(rep, budget_s=30.0):
 
 
 def write_replay(rep, directory=None):
-    d = directory or os.path.join(VERIF_DIR, "replays", rep["property"])
+    d = directory or os.path.join(OUT_DIR, "replays", rep["property"])
     os.makedirs(d, exist_ok=True)
     p = os.path.join(d, "%d-%d.json" % (rep["verif_seed"], rep["run_index"]))
     with open(p, "w") as f:
